@@ -1,5 +1,6 @@
 mod abi;
 mod breadcrumb;
+mod c10;
 mod mapwatch;
 mod ops;
 mod opsworld;
